@@ -424,6 +424,50 @@ class Sim:
 
 
 # ---------------------------------------------------------------- SimLock
+_BUILDING = False
+
+
+@contextlib.contextmanager
+def building():
+    """Objects constructed inside this block get simulator-aware locks although
+    no simulation is active yet: a dataset is often built first and consumed by
+    simulated threads later, and a plain lock created in between would block a
+    simulated thread for real (nobody would hold the baton).  Outside a
+    simulation such a lock is a plain flag (single harness thread)."""
+    if not begin_building():
+        yield
+        return
+    try:
+        yield
+    finally:
+        end_building()
+
+
+_BUILD_SAVED = None
+
+
+def begin_building():
+    global _BUILDING, _BUILD_SAVED
+    if SIM is not None or _BUILDING:
+        return False
+    _BUILD_SAVED = (threading.Lock, threading._allocate_lock, threading._CRLock)
+    _BUILDING = True
+    threading.Lock = SimLock
+    threading._allocate_lock = SimLock
+    threading._CRLock = None
+    return True
+
+
+def end_building():
+    """idempotent"""
+    global _BUILDING, _BUILD_SAVED
+    if not _BUILDING:
+        return
+    _BUILDING = False
+    threading.Lock, threading._allocate_lock, threading._CRLock = _BUILD_SAVED
+    _BUILD_SAVED = None
+
+
 class SimLock:
     """Replacement for _thread.lock; every acquire is a yield point."""
 
@@ -431,6 +475,8 @@ class SimLock:
         self._locked = False
         self._real = None
         sim = SIM
+        if sim is None and _BUILDING:
+            return
         if sim is None or sim.by_ident.get(_real_get_ident()) is None:
             # created by a thread the simulator does not own (e.g. a helper
             # thread of the harness): behave as the real thing
